@@ -681,22 +681,25 @@ def _accessors(run, P):
         else:
             run.violation("F-TABLE/subset-kinds", c, where(f), "the cross-section does not select the faces returned by get_faces_at_constant_latitude along n_face")
     f = P.func(f"{GRID}:Grid.get_faces_at_constant_latitude")
-    defs = LocalDefs(f.node)
-    rets = [r for r in ast.walk(f.node) if isinstance(r, ast.Return)]
+    from ..astutil import InterDefs
+    I = InterDefs(P, f)      # the method and the helper methods / module functions it calls
     c = f"{f.key}:faces-of-edges"
-    probs = []
-    gathered = [n for n in ast.walk(f.node) if isinstance(n, ast.Subscript) and isinstance(S.strip_copy(n.value), ast.Attribute) and S.strip_copy(n.value).attr == "edge_face_connectivity"]
+    probs, unknown = [], []
+    gathered = [(g, n) for g, n in I.walk() if isinstance(n, ast.Subscript) and isinstance(S.strip_copy(n.value), ast.Attribute) and S.strip_copy(n.value).attr == "edge_face_connectivity"]
     if not gathered:
-        probs.append("faces are not read from edge_face_connectivity")
+        any_conn = any(isinstance(n, ast.Attribute) and n.attr.endswith("_connectivity") for _g, n in I.walk())
+        (probs if any_conn else unknown).append("faces are not read from edge_face_connectivity")
     else:
-        nodes, _ = defs.closure(gathered[0].slice)
-        if not any(isinstance(x, ast.Call) and (dotted(x.func) or [""])[-1] == "get_edges_at_constant_latitude" for e in nodes for x in ast.walk(e)):
-            probs.append("edge_face_connectivity is not indexed with the intersecting edges")
-    if not any(S.fill_test(n) and S.fill_test(n)[0] == "ne" for r in rets for n in ast.walk(r) if isinstance(n, ast.Compare)):
-        if not any(S.fill_test(n) and S.fill_test(n)[0] == "ne" for n in ast.walk(f.node) if isinstance(n, ast.Compare)):
-            probs.append("the fill value (boundary edges have one face) is not removed from the faces")
+        g0, n0 = gathered[0]
+        behind = I.closure(g0, n0.slice)
+        if not any(isinstance(x, ast.Call) and (dotted(x.func) or [""])[-1] in ("get_edges_at_constant_latitude", "fast_constant_lat_intersections") for _h, e in behind for x in ast.walk(e)):
+            unknown.append("edge_face_connectivity is not seen to be indexed with the intersecting edges")
+    if not any(S.fill_test(n) and S.fill_test(n)[0] == "ne" for _g, n in I.walk() if isinstance(n, ast.Compare)):
+        (probs if gathered else unknown).append("the fill value (boundary edges have one face) is not removed from the faces")
     if probs:
         run.violation("IDX/subgrid", c, where(f), "; ".join(probs))
+    elif unknown:
+        run.incomplete("IDX/subgrid", c, where(f), "; ".join(unknown))
     else:
         run.holds("IDX/subgrid", c, where(f), "faces = edge_face_connectivity[intersecting edges] without the fill value")
 
@@ -779,17 +782,36 @@ def _edge_node_z(run, P):
     if f is None:
         run.incomplete("IDX/edge-node-z", c, "-", "property not found")
         return
-    defs = LocalDefs(f.node)
-    st = next((s2 for s2 in iter_stmts(f.node.body) if isinstance(s2, ast.Assign) and isinstance(s2.targets[0], ast.Name) and isinstance(s2.value, ast.Subscript)), None)
-    if st is None:
-        run.incomplete("IDX/edge-node-z", c, where(f), "gather not found")
-        return
-    base = S.strip_copy(st.value.value)
-    idx = S.strip_copy(st.value.slice)
-    ok = isinstance(base, ast.Attribute) and base.attr == "node_z" and isinstance(idx, ast.Attribute) and idx.attr == "edge_node_connectivity"
-    if ok:
-        run.holds("IDX/edge-node-z", c, where(f, st), "edge_node_z = node_z[edge_node_connectivity]")
+    from ..astutil import InterDefs, Resolver
+    I = InterDefs(P, f)
+
+    def attr_of(e, g):
+        """the grid attribute an operand stands for (through .values/.data/copies and single-definition locals of its function)"""
+        e = S.strip_copy(Resolver(g.node).resolve(e))
+        while isinstance(e, ast.Attribute) and e.attr in ("values", "data"):
+            e = S.strip_copy(e.value)
+        return e.attr if isinstance(e, ast.Attribute) else None
+    gathers = []
+    for g, n in I.walk():
+        if isinstance(n, ast.Subscript) and isinstance(n.ctx, ast.Load):
+            b_, i_ = attr_of(n.value, g), attr_of(n.slice, g)
+            if b_ is None and isinstance(n.value, ast.Name) and g.node is not f.node:
+                # a helper's parameter: the argument at the call site
+                for h, e in I.closure(g, n.value):
+                    if attr_of(e, h) == "node_z":
+                        b_ = "node_z"
+                for h, e in I.closure(g, n.slice):
+                    if attr_of(e, h) == "edge_node_connectivity":
+                        i_ = "edge_node_connectivity"
+            if b_ == "node_z" and i_ == "edge_node_connectivity":
+                gathers.append((g, n))
+    # arithmetic anywhere in the scope on the way to the stored value
+    arith = [(g, n) for g, n in I.walk() if (isinstance(n, ast.BinOp) and isinstance(n.op, (ast.Add, ast.Sub, ast.Mult, ast.Div, ast.Pow)) and not all(isinstance(x, ast.Constant) for x in (n.left, n.right)))
+             or (isinstance(n, ast.Call) and any(t in (dotted(n.func) or [""])[-1] for t in ("normalize", "sqrt", "round", "clip", "astype")))]
+    if gathers and not arith:
+        run.holds("IDX/edge-node-z", c, where(gathers[0][0], gathers[0][1]), "edge_node_z = node_z[edge_node_connectivity]")
+    elif arith:
+        g, n = arith[0]
+        run.violation("IDX/edge-node-z", c, where(g, n), f"edge_node_z passes through {norm(n)[:60]}: not the stored node_z gathered by edge_node_connectivity - values that lie exactly on a queried parallel no longer compare equal to sin(lat)")
     else:
-        nodes, _ = defs.closure(st.value)
-        arith = [norm(n.func) for e in nodes for n in ast.walk(e) if isinstance(n, ast.Call) and (dotted(n.func) or [""])[-1] not in ("DataArray",)]
-        run.violation("IDX/edge-node-z", c, where(f, st), f"edge_node_z is {norm(st.value)[:70]} (through {arith[:3]}), not the stored node_z gathered by edge_node_connectivity: values that lie exactly on a queried parallel no longer compare equal to sin(lat)")
+        run.incomplete("IDX/edge-node-z", c, where(f), "gather node_z[edge_node_connectivity] not found")
